@@ -9,8 +9,8 @@ loader = importlib.machinery.SourceFileLoader("vcheck", os.path.join(os.getcwd()
 spec = importlib.util.spec_from_loader("vcheck", loader)
 m = importlib.util.module_from_spec(spec); loader.exec_module(m)
 os.makedirs("work", exist_ok=True)
-ok, secs = m.build("props", os.path.join(os.getcwd(), "work", "setup.props.test"))
-try: os.remove(os.path.join("work", "setup.props.test"))
+ok, secs = m.build("props", os.path.join(os.getcwd(), "work", "setup", "props.test"))
+try: import shutil; shutil.rmtree(os.path.join("work", "setup"), ignore_errors=True)
 except OSError: pass
 print("setup: harness build %s in %.1fs" % ("ok" if ok else "FAILED", secs))
 sys.exit(0 if ok else 1)
